@@ -288,8 +288,8 @@ Example C16_factory_guard_examples :
 Proof. vm_compute. repeat split; reflexivity. Qed.
 
 (** The tie.  The model runs the unit over [small_cache], the implementation over the repository's own caches; the wire wrapper
-    (Unit/UnitComp.v, [observe]) prints only what is claimed not to depend on the cacher.  Proved here for every data operation except
-    GetBulkFromEpoch: after ANY history, for ANY lawful cacher, the printed observables of an operation are a function of the operations
+    (Unit/UnitComp.v, [observe]) prints only what is claimed not to depend on the cacher.  Proved here for every data operation (for
+    GetBulkFromEpoch: when no read of the bulk can fail, see C16_observables_bulk below): after ANY history, for ANY lawful cacher, the printed observables of an operation are a function of the operations
     issued so far and their failure oracles alone -- the cacher does not occur on the right-hand side ... *)
 Theorem C16_observables_warm : forall (C : cacher_ops) (L : cacher_laws C) (pre : list uop) (d : uop), is_bulk d = false ->
   let s := unit_final C (unit_new C) pre in
@@ -303,6 +303,16 @@ Theorem C16_observables_cold : forall (C : cacher_ops) (L : cacher_laws C) (pre 
   let s := unit_clear_cache C (unit_final C (unit_new C) pre) in
   observe true d (snd (unit_step C s d)) (u_pers s) = spec_observe true d (oracle_ack_map pre).
 Proof. intros C L pre d Hcf Hb. cbv zeta. rewrite (observe_cold C L pre d Hcf Hb), (ack_map_oracle C L). reflexivity. Qed.
+
+(** ... and for GetBulkFromEpoch when no read of the bulk can fail (the case in which its pairs are printed for a warm bulk): every found
+    pair, in request order, warm or cold *)
+Theorem C16_observables_bulk : forall (C : cacher_ops) (L : cacher_laws C) (pre : list uop) (ks : list bytes) (ep : N) (o : oracle),
+  no_fail_prefix (length ks) o ->
+  (let s := unit_final C (unit_new C) pre in
+   observe false (OBulk ks ep o) (snd (unit_step C s (OBulk ks ep o))) (u_pers s) = [(8%N, g_pairs (found_pairs (oracle_ack_map pre) ks))]) /\
+  (let s := unit_clear_cache C (unit_final C (unit_new C) pre) in
+   observe true (OBulk ks ep o) (snd (unit_step C s (OBulk ks ep o))) (u_pers s) = [(8%N, g_pairs (found_pairs (oracle_ack_map pre) ks))]).
+Proof. exact observe_bulk. Qed.
 
 (** ... hence two lawful cachers (the model's and the implementation's) print the same: a disagreement on these labels cannot come
     from the eviction policy of the cache *)
@@ -340,3 +350,4 @@ Print Assumptions C16_close.
 Print Assumptions C16_observables_warm.
 Print Assumptions C16_observables_cold.
 Print Assumptions C16_observables_do_not_depend_on_the_cacher.
+Print Assumptions C16_observables_bulk.
